@@ -167,6 +167,12 @@ def run(ctx):
     ldefs = {"Chunks": "QuickChunks", "MaxLen": "3"} if quick else {"Chunks": "AllChunks", "MaxLen": "3"}
     lex, lead1 = tlc_with_lead(ctx, "Lexer", "Lexer.cfg", "LexerEmit.cfg", ldefs, "lexer-model", workers=min(ctx.workers, 8))
     beh_files = [lex.beh_path]
+    # every arm of the whole alphabet next to every chunk (the quick tier's three-chunk run uses the sub-alphabet)
+    if quick:
+        wide, lw = tlc_with_lead(ctx, "Lexer", "Lexer.cfg", "LexerEmit.cfg", {"Chunks": "AllChunks", "MaxLen": "2"},
+                                 "lexer-model-wide2", workers=min(ctx.workers, 8))
+        lead1 += lw
+        beh_files.append(wide.beh_path)
     # long inputs over a small alphabet (state carried from token to token) ...
     deep, ld = tlc_with_lead(ctx, "Lexer", "Lexer.cfg", "LexerEmit.cfg", {"Chunks": "DeepChunks", "MaxLen": "4" if quick else "5"},
                              "lexer-model-deep", workers=min(ctx.workers, 8), timeout=3000)
@@ -219,7 +225,7 @@ def run(ctx):
     pump_res = ctx.harness(BIN, ["pumpreplay"], stdin_path=pump_all, out_name="pump_res.jsonl")
 
     # ------------------------------------------------------------------ 3. inputs for the parse runs
-    stride = 10 if quick else 1
+    stride = 20 if quick else 1
     mut = ctx.tlc("Mutations", defines={"Stride": str(stride), "Offset": str(ctx.seed % stride)}, tag="mutations", workers=4)
     # composed mutations (two or three faults), seeded.  In simulation mode TLC evaluates Emit on every candidate
     # successor (tens of thousands per state), so a few walks print plenty; a seeded sample of them is taken.
@@ -246,7 +252,7 @@ def run(ctx):
             b = json.loads(line)
             nm += 1
             n_in += 1
-            if b["mut"] == "base":
+            if b["mut"] == "base" and b["valid"]:
                 base_ids["mu%d" % nm] = b["prog"]
             out.write(json.dumps({"id": "mu%d" % nm, "toks": b["toks"], "lex": True,
                                   "class": {"source": "mutation", "mut": b["mut"], "prog": b["prog"], "at": b["at"], "with": b["with"]}}) + "\n")
